@@ -11,6 +11,7 @@ theorem sim_step {α} (c : Cur α) (s : SCur α) (o : Op α) (h : Sim c s) :
   obtain ⟨hr, ha, hi⟩ := h
   cases o with
   | exec rs => simp [step, sstep, Sim, ha]
+  | fail => simp [step, sstep, Sim, ha]
   | setAs n => simp [step, sstep, Sim, hr, hi]
   | one =>
     cases hrs : c.rows? with
